@@ -326,6 +326,11 @@ func genConcOp(r *Rng, w *world, mine *[][]byte, uid *uint64, cfg ConcCfg) *Op {
 		if r.Intn(2) == 0 {
 			d2 = dir()
 		}
+		if r.Intn(6) == 0 {
+			// refused after the source name has already been taken out of the
+			// cached directory (the new name is too long)
+			return &Op{K: OpRename, H: d1, Name: name(), H2: d2, Name2: longName(200, 'x')}
+		}
 		return &Op{K: OpRename, H: d1, Name: name(), H2: d2, Name2: name()}
 	case x < 52:
 		return &Op{K: OpLookup, H: dir(), Name: name()}
